@@ -546,7 +546,7 @@ func main() {
 				if s.Len <= 1 && !s.Truncate && tier == "thorough" {
 					levels = append(levels, mc.Bounds{Preempt: 3, Delay: 3})
 				}
-				out = append(out, mc.Scenario{Name: s.Name, Levels: levels})
+				out = append(out, mc.Scenario{Name: s.Name, Levels: levels, Races: true})
 			}
 			return out
 		},
